@@ -24,6 +24,14 @@ import (
 	"google.golang.org/protobuf/reflect/protoregistry"
 	"google.golang.org/protobuf/types/descriptorpb"
 
+	_ "github.com/gogo/protobuf/types"
+	_ "google.golang.org/protobuf/types/known/durationpb"
+	_ "google.golang.org/protobuf/types/known/emptypb"
+	_ "google.golang.org/protobuf/types/known/fieldmaskpb"
+	_ "google.golang.org/protobuf/types/known/structpb"
+	_ "google.golang.org/protobuf/types/known/timestamppb"
+	_ "google.golang.org/protobuf/types/known/wrapperspb"
+
 	"csverif/gencheck"
 	"csverif/internal/fw"
 )
@@ -35,7 +43,13 @@ type jsonType struct {
 	gogo  bool
 	md    protoreflect.MessageDescriptor
 	fresh func() interface{}
+	wkt   bool // a well-known type used as the TOP-LEVEL message: its JSON form is not an object of its fields
 }
+
+// the well-known types with a JSON mapping of their own (null, bare numbers and strings, arrays, RFC 3339 text);
+// structpb's three types also implement encoding/json's interfaces themselves
+var wktFiles = []string{"google/protobuf/struct.proto", "google/protobuf/timestamp.proto", "google/protobuf/duration.proto",
+	"google/protobuf/wrappers.proto", "google/protobuf/field_mask.proto", "google/protobuf/empty.proto"}
 
 var exampleFiles = []struct {
 	file string
@@ -105,6 +119,40 @@ func jsonCorpus() ([]jsonType, error) {
 			}
 		}
 		walk(fd.Messages())
+	}
+	// … and the well-known types themselves as top-level messages, for the Google and the Gogo runtime
+	for _, gogo := range []bool{false, true} {
+		for _, f := range wktFiles {
+			var fd protoreflect.FileDescriptor
+			var err error
+			if gogo {
+				fd, err = gogoFileDesc(f)
+			} else {
+				fd, err = protoregistry.GlobalFiles.FindFileByPath(f)
+			}
+			if err != nil {
+				return nil, fmt.Errorf("well-known file %s (gogo=%v): %w", f, gogo, err)
+			}
+			for i := 0; i < fd.Messages().Len(); i++ {
+				md := fd.Messages().Get(i)
+				jt := jsonType{name: string(md.FullName()), gogo: gogo, md: md, wkt: true}
+				if gogo {
+					jt.name = "gogo:" + jt.name
+					rt := gogoproto.MessageType(string(md.FullName()))
+					if rt == nil {
+						continue
+					}
+					jt.fresh = func() interface{} { return reflect.New(rt.Elem()).Interface() }
+				} else {
+					mt, err := protoregistry.GlobalTypes.FindMessageByName(md.FullName())
+					if err != nil {
+						continue
+					}
+					jt.fresh = func() interface{} { return mt.New().Interface() }
+				}
+				out = append(out, jt)
+			}
+		}
 	}
 	return out, nil
 }
@@ -373,10 +421,19 @@ func jsonCase(c *fw.Ctx, t jsonType) {
 		c.Count("json", fmt.Sprint(desc), "both-fail", len(wire), true)
 		return
 	}
+	// a value the owning runtime's OWN JSON codec cannot take through marshal + unmarshal (Gogo: a Duration beyond
+	// time.Duration's range, an infinite number inside a Struct, …) has no JSON form to speak of: no round trip is
+	// asked of the adapter either.  The gate looks at the runtime's codec only, never at csproto.
+	if self := t.fresh(); t.runtimeUnmarshal(want, self, false, true) != nil || !t.equal(m, self) {
+		c.Count("json", fmt.Sprint(desc), "runtime-codec-cannot-round-trip-this-value", len(wire), true)
+		return
+	}
 	switch {
 	case !json.Valid(b):
 		outcome = "not-json"
 		viol("json/not-well-formed", "the adapter's output is not well-formed JSON", "valid JSON", string(b))
+	case t.wkt:
+		// no object of the type's own fields: the layout / enum / zero-value checks do not apply
 	case !indentOK(b, indent):
 		outcome = "indent"
 		viol("json/indent", "the indentation option does not have its documented effect", fmt.Sprintf("indent %q", indent), string(b))
